@@ -351,8 +351,13 @@ def build_tomo(case, c):
     c_sys = build.c_sys_for(c.shape)
     states = [build.make(c_sys, "state", v) for v in c.svecs]
     povms = [build.make(c_sys, "povm", np.concatenate(ev), m=len(ev)) for ev in c.evecs]
+    from harness import reps
+
     sch = quara_schedules(case)
-    kw = dict(on_para_eq_constraint=c.flag, schedules=sch)
+    if isinstance(sch, list):  # the custom schedule list as list or tuple (of lists or tuples)
+        inner = reps.pick(("inner", repr(sch)[:200]), 2)
+        sch = reps.seq([tuple(x) if inner else list(x) for x in sch], "sched")
+    kw = dict(on_para_eq_constraint=reps.flag(c.flag, c.tomo + c.shape), schedules=sch)
     if c.tomo == "qst":
         t = StandardQst(povms, **kw)
     elif c.tomo == "povmt":
